@@ -374,6 +374,7 @@ class ElectionProfile:
         #  a multiplier of 0 ends the ballot list
         #
         ballotIDs = set()
+        nLines = 0  # number of ballot lines read, kept or not
 
         while True:
             if tok.startswith('('):     # handle ballot ID
@@ -392,6 +393,7 @@ class ElectionProfile:
                     (tok, self.lineNumber))
             if not multiplier:  # test end of ballot lines (multiplier of 0)
                 break
+            nLines += 1
 
             ranking = list()    # [CID]
             while True:
@@ -410,9 +412,9 @@ class ElectionProfile:
 
             tok = next(blt)  # next multiplier or 0 for end of ballots
 
-        if ballotIDs and len(ballotIDs) != len(self.ballotLines):
+        if ballotIDs and len(ballotIDs) != nLines:
             raise ElectionProfileError('number of ballot IDs (%d) does not match number of ballots (%d)' % \
-                (len(ballotIDs), len(self.ballotLines)))
+                (len(ballotIDs), nLines))
 
         #  candidate names
         #
